@@ -141,7 +141,18 @@ func pointerifyField(originalField reflect.StructField, tmplFieldVal reflect.Val
 		// if it's a valid pointer that's non-nil, dereference it so it
 		// can be used in the fallthrough
 		if tmplFieldVal.Kind() == reflect.Ptr && !tmplFieldVal.IsNil() {
-			tmplFieldVal = tmplFieldVal.Elem()
+			// A cycle of the template may also close through a plain
+			// pointer field (an interface holding a struct value whose
+			// pointer field leads back): follow each pointee's
+			// interface values once.
+			key := ifacePtrKey{ptr: tmplFieldVal.Pointer(), typ: tmplFieldVal.Type()}
+			if _, inProgress := visiting[key]; inProgress {
+				tmplFieldVal = reflect.Value{}
+			} else {
+				visiting[key] = struct{}{}
+				defer delete(visiting, key)
+				tmplFieldVal = tmplFieldVal.Elem()
+			}
 		} else {
 			tmplFieldVal = reflect.Value{}
 		}
